@@ -1,0 +1,57 @@
+//go:build verif
+
+// Machine-checked contracts for package connection (read by /verif/bin/gvc; comment-only, adds no declarations).
+package connection
+
+// ---- C15: byte streams survive the hex-over-websocket framing ----
+//
+// Read: the bytes handed out, followed by the bytes kept in bufferedMsg, are exactly the buffer the call started
+// with (if it was non-empty) or exactly the one non-empty text frame decoded in this call: nothing lost,
+// duplicated or reordered; frames are decoded only while no data is buffered, and only text frames are decoded.
+
+//@ pure disjoint(a ref, b ref) bool = base(a) != base(b) || base(a) == 0
+
+//@ func (*WebsocketNetConn).Read props(C15,C07)
+//@   requires c != nil && c.Conn != nil && disjoint(bs, c.bufferedMsg)
+//@   assigns c.bufferedMsg, elems(bs)
+//@   ghost decodes int = 0
+//@   ghost reads int = 0
+//@   ghost last []byte
+//@   call (*websocket.Conn).ReadMessage
+//@     assert[C15:read-only-when-empty] len(c.bufferedMsg) == 0
+//@     do reads = reads + 1
+//@   call hex.DecodeString
+//@     assert[C15:text-frames-only] msgType == 1
+//@     assert[C15:decode-only-when-empty] len(c.bufferedMsg) == 0
+//@     do decodes = decodes + ite(ret1 == nil && len(ret0) > 0, 1, 0)
+//@     do last = ite(ret1 == nil, ret0, last)
+//@   ensures[C15:from-buffer] err == nil && old(len(c.bufferedMsg)) > 0 ==> reads == 0 && count == min(len(bs), old(len(c.bufferedMsg)))
+//@   |   && forall(k, 0, count, bs[k] == old(c.bufferedMsg[k]))
+//@   |   && len(c.bufferedMsg) == old(len(c.bufferedMsg)) - count
+//@   |   && forall(k, 0, len(c.bufferedMsg), c.bufferedMsg[k] == old(c.bufferedMsg[k + count]))
+//@   ensures[C15:from-frame] err == nil && old(len(c.bufferedMsg)) == 0 ==> decodes == 1 && count == min(len(bs), len(last))
+//@   |   && forall(k, 0, count, bs[k] == last[k])
+//@   |   && len(c.bufferedMsg) == len(last) - count
+//@   |   && forall(k, 0, len(c.bufferedMsg), c.bufferedMsg[k] == last[k + count])
+//@   ensures[C15:no-bytes-on-error] err != nil ==> count == 0 && decodes == 0 && len(c.bufferedMsg) == 0
+//@   loop 1
+//@     invariant[C15:refill-a] reads == 0 ==> decodes == 0 && c.bufferedMsg == old(c.bufferedMsg)
+//@     invariant[C15:refill-b] reads > 0 ==> old(len(c.bufferedMsg)) == 0 && (len(c.bufferedMsg) == 0 ==> decodes == 0) && (len(c.bufferedMsg) > 0 ==> decodes == 1 && c.bufferedMsg == last)
+//@     invariant[C15:refill-c] reads >= 0 && (base(last) == 0 || !allocated0(base(last))) && disjoint(bs, c.bufferedMsg)
+//@   loop 2
+//@     assigns elems(bs)
+//@     invariant[C15:copy-range] 0 <= count && count <= len(bs) && count <= len(c.bufferedMsg)
+//@     invariant[C15:copy-prefix] forall(k, 0, count, bs[k] == c.bufferedMsg[k])
+
+// Write: exactly one text frame carrying the hex encoding of exactly the bytes given; nothing of the
+// connection's read state is touched (disjoint from Read's frame), so the two directions cannot disturb each other.
+
+//@ func (*WebsocketNetConn).Write props(C15,C07)
+//@   requires c != nil && c.Conn != nil
+//@   assigns nothing
+//@   ghost writes int = 0
+//@   call (*websocket.Conn).WriteMessage
+//@     assert[C15:one-text-frame] writes == 0 && arg1 == 1 && string(arg2) == hexOf(bs)
+//@     do writes = writes + 1
+//@   ensures[C15:write-count] err == nil ==> count == len(bs) && writes == 1
+//@   ensures[C15:write-error] err != nil ==> count == 0
